@@ -39,7 +39,7 @@ func (x *Exec) sentinel(g *ssa.Global) (Value, bool) {
 	}
 	x.VC.Assumptions["package-level sentinel variables (ErrShutdown, ErrDial, io.EOF, funcs.ZeroValue, ...) are never reassigned and are pairwise distinct"] = true
 	elem := g.Type().(*types.Pointer).Elem()
-	id := IntLit(int64(1000000 + len(x.globals)))
+	id := IntLit(int64(1 + len(x.globals))) // sentinel objects are ordinary pre-existing objects (refs 1..999)
 	var v Value
 	if _, ok := elem.Underlying().(*types.Interface); ok {
 		v = IfaceV{Tag: x.typeTag(types.NewPointer(types.Typ[types.Invalid])), Val: id, Ty: elem}
@@ -102,7 +102,7 @@ func (x *Exec) stringLit(s string, t types.Type) Value {
 		return v
 	}
 	// literal arrays live at negative-free reserved refs 2000000+k (below any watermark assumption is not needed: they are never allocated)
-	arr := IntLit(int64(2000000 + len(x.strLits)))
+	arr := IntLit(int64(1000 + len(x.strLits))) // literal arrays: pre-existing objects 1000..1999
 	v := SliceV{Arr: arr, Off: BVLit(0, 64), Len: BVLit(uint64(len(s)), 64), Ty: t, Str: true}
 	x.strLits[s] = v
 	return v
@@ -113,7 +113,12 @@ func (x *Exec) operandIn(env map[ssa.Value]Value, v ssa.Value, st *State) Value 
 	case *ssa.Const:
 		return x.constValue(c)
 	case *ssa.Global:
-		return LocV{Kind: "global", Cell: "global:" + c.Pkg.Pkg.Path() + "." + c.Name(), Ty: c.Type()}
+		cell := "global:" + c.Pkg.Pkg.Path() + "." + c.Name()
+		if x.globalObjs == nil {
+			x.globalObjs = map[string]*ssa.Global{}
+		}
+		x.globalObjs[cell] = c
+		return LocV{Kind: "global", Cell: cell, Ty: c.Type()}
 	case *ssa.Function:
 		return ClosureV{Fn: c, Ref: x.funcRef(c), Ty: c.Type()}
 	case *ssa.Builtin:
@@ -130,11 +135,11 @@ func (x *Exec) funcRef(fn *ssa.Function) *Term {
 	// stable positive id per function
 	k := "func:" + fn.String()
 	if id, ok := x.typeTags[k]; ok {
-		return IntLit(3000000 + id)
+		return IntLit(2000 + id)
 	}
 	id := int64(len(x.typeTags) + 1)
 	x.typeTags[k] = id
-	return IntLit(3000000 + id)
+	return IntLit(2000 + id) // top-level function values: pre-existing objects 2000..2999
 }
 
 // ---------- loads and stores through pointers ----------
@@ -167,8 +172,13 @@ func (x *Exec) load(n *node, ptr Value, ty types.Type, pos token.Pos) Value {
 			x.nilCheck(n, p.Obj, pos, "*")
 			return x.loadField(st, "Cell", typeName(ty), ty, p.Obj, n.guard)
 		case "field":
-			return x.loadField(st, p.Outer, fieldPathName(p.ST, p.Path), ty, p.Obj, n.guard)
+			fname := fieldPathName(p.ST, p.Path)
+			x.guardField(n, p.Outer, fname, p.Obj, pos, false)
+			v := x.loadField(st, p.Outer, fname, ty, p.Obj, n.guard)
+			x.applyObserve(n, p.Outer, fname, p.Obj, v)
+			return v
 		case "elem":
+			x.guardElem(n, ty, p.Obj, pos, false)
 			return x.loadElem(st, ty, p.Obj, p.Idx, n.guard)
 		case "cell":
 			if v, ok := st.Cells[p.Cell]; ok {
@@ -182,6 +192,11 @@ func (x *Exec) load(n *node, ptr Value, ty types.Type, pos token.Pos) Value {
 			v := x.zeroValue(ty)
 			return v
 		case "global":
+			if g, ok := x.globalObjs[p.Cell]; ok {
+				if v, ok := x.sentinel(g); ok {
+					return v
+				}
+			}
 			if v, ok := st.Cells[p.Cell]; ok {
 				return v
 			}
@@ -294,6 +309,15 @@ func (x *Exec) execInstr(fc *funcCtx, n *node, ins ssa.Instruction) {
 				st.Ghost["fresh:"+r.String()] = True
 				return
 			}
+		}
+		if at, isArr := elem.Underlying().(*types.Array); isArr {
+			// local array (typically the backing store of variadic arguments): a fresh heap array
+			r := x.alloc(st, "array")
+			for _, c := range shapeComps(at.Elem()) {
+				x.objSet(st, elemKey(at.Elem())+c.Suffix, r, x.zeroArray(c.S))
+			}
+			env[i] = LocV{Kind: "array", Obj: r, Path: []int{int(at.Len())}, Ty: i.Type()}
+			return
 		}
 		key := fmt.Sprintf("cell:%s.%s", fc.fn.Name(), i.Name())
 		if n.iter > 0 {
@@ -536,6 +560,12 @@ func (x *Exec) indexAddr(n *node, base Value, idx Value, i *ssa.IndexAddr) Value
 		ix := x.toIndex(idx, i.Index.Type())
 		x.boundsCheck(n, ix, b.Len, i.Index.Type(), i.Pos())
 		return LocV{Kind: "elem", Obj: b.Arr, Idx: x.VC.Def("idx", BVBin("bvadd", b.Off, ix)), Ty: i.Type()}
+	case LocV:
+		if b.Kind == "array" {
+			ix := x.toIndex(idx, i.Index.Type())
+			x.boundsCheck(n, ix, BVLit(uint64(b.Path[0]), 64), i.Index.Type(), i.Pos())
+			return LocV{Kind: "elem", Obj: b.Obj, Idx: ix, Ty: i.Type()}
+		}
 	}
 	x.VC.Warnf("IndexAddr on unsupported base %T in %s", base, x.TopName)
 	return UnknownV{Ty: i.Type()}
@@ -545,11 +575,31 @@ func (x *Exec) storeCheck(n *node, ptr Value, pos token.Pos) {
 	if lv, ok := ptr.(LocV); ok && lv.Kind == "field" {
 		x.guardField(n, lv.Outer, fieldPathName(lv.ST, lv.Path), lv.Obj, pos, true)
 	}
+	if lv, ok := ptr.(LocV); ok && lv.Kind == "elem" {
+		x.guardElem(n, lv.Ty.Underlying().(*types.Pointer).Elem(), lv.Obj, pos, true)
+	}
+}
+
+// guardElem: element arrays declared as guarded (e.g. Elem<*persistConn>) need their lock.
+func (x *Exec) guardElem(n *node, elem types.Type, arr *Term, pos token.Pos, write bool) {
+	li := x.guardedBy(elemKey(elem))
+	if li == nil {
+		return
+	}
+	name := lockName(li)
+	if n.st.Locks[name] || n.st.FreshObjs[arr] > 0 || x.holdsByContract(name) {
+		return
+	}
+	x.Oblige("lockset", fmt.Sprintf("%s accessed without %s", elemKey(elem), name), fmt.Sprint(pos), pos, n.guard, False, li.Props)
 }
 
 func (x *Exec) sliceOp(n *node, i *ssa.Slice, base Value, ins *ssa.Slice) Value {
 	st := n.st
 	op := func(v ssa.Value) Value { return x.operandIn(n.env, v, st) }
+	if lv, isArr := base.(LocV); isArr && lv.Kind == "array" {
+		nn := BVLit(uint64(lv.Path[0]), 64)
+		base = SliceV{Arr: lv.Obj, Off: BVLit(0, 64), Len: nn, Cap: nn, Ty: i.Type()}
+	}
 	b, ok := base.(SliceV)
 	if !ok {
 		// slicing a pointer to array etc.
